@@ -235,6 +235,11 @@ def r19_3(chk):
 
     chk.decide(only_when(commit, True), "R19.3", key(m, "atomic_write.__exit__", "commit only on success"), m.loc(fn), "self._close_func runs only when exc_type is None", "the commit runs although an exception is in flight: a failed write replaces the destination with partial content")
     chk.decide(bool(cleanup) and only_when(cleanup, False), "R19.3", key(m, "atomic_write.__exit__", "cleanup on failure"), m.loc(fn), "temp dir removed when an exception is in flight", "the failure branch does not remove the temporary directory")
+    # the temporary file is closed (flushed) before it is moved into place
+    g2 = build(fn)
+    closes = g2.nodes_containing(lambda x: isinstance(x, ast.Call) and norm(x.func) == "self._file.close")
+    commits = g2.nodes_containing(lambda x: isinstance(x, ast.Call) and norm(x.func) == "self._close_func")
+    chk.decide(bool(closes) and all(g2.dominated_by(c_, closes)[0] for c_ in commits), "R19.3", key(m, "atomic_write.__exit__", "file closed before commit"), m.loc(fn), "self._file.close() dominates the commit", "the temporary file can be moved into place before it is closed: buffered content is missing from the committed file")
     close = m.func("atomic_write.close")
     good = any(isinstance(c, ast.Call) and norm(c.func) == "self.__exit__" and all(isinstance(a, ast.Constant) and a.value is None for a in c.args) for c in walk_no_nested(close))
     chk.decide(good, "R19.3", key(m, "atomic_write.close", "close == successful exit"), m.loc(close), "close() is __exit__(None, None, None)", "close() no longer delegates to __exit__(None, None, None)")
